@@ -197,7 +197,7 @@ pub fn stages(ctx: &Ctx, strict: bool) {
     // (1) strided truncation + field sweeps with rotating argument records
     let mut sweep = ix.truncation_sweep(40, 300_000);
     sweep.extend(ix.field_sweep(96, 300_000, if ctx.quick() { 29 } else { 5 }));
-    let stride = if ctx.quick() { 5 } else { 1 };
+    let stride = if ctx.quick() { 2 } else { 1 };
     let sweep: Vec<MutCase> = sweep.into_iter().step_by(stride).collect();
     ctx.index_stage(
         "skrifa-sweep",
@@ -210,9 +210,9 @@ pub fn stages(ctx: &Ctx, strict: bool) {
     let strat = || {
         (havoc_strategy(&ix, 300_000, 6), proptest::sample::select(names.clone()), skargs_strategy()).prop_map(|(m, other, args)| SkCase { m, other, args })
     };
-    ctx.prop_stage("skrifa-havoc", Isolation::Procs, ctx.n(10_000, 60_000), strat, |c, s| test_sk(&ix, c, s, strict));
+    ctx.prop_stage("skrifa-havoc", Isolation::Procs, ctx.n(60_000, 600_000), strat, |c, s| test_sk(&ix, c, s, strict));
     // (3) IFT client
-    ctx.prop_stage("ift", Isolation::Procs, ctx.n(30_000, 300_000), ift_strategy, |c, s| test_ift(&ix, c, s, strict));
+    ctx.prop_stage("ift", Isolation::Procs, ctx.n(150_000, 1_500_000), ift_strategy, |c, s| test_ift(&ix, c, s, strict));
     // replays of inputs found by the coverage-guided target c02_ift
     ctx.index_stage("ift-raw", Isolation::Threads, 0, |_| RawIft { raw_hex: String::new() }, |c: &RawIft, s| {
         let h = c.raw_hex.strip_prefix("hex:").unwrap_or(&c.raw_hex);
@@ -239,7 +239,7 @@ pub fn stages(ctx: &Ctx, strict: bool) {
         }
     });
     // (4) shared-brotli decoder
-    ctx.prop_stage("brotli", Isolation::Procs, ctx.n(20_000, 200_000), brotli_strategy, |c, s| {
+    ctx.prop_stage("brotli", Isolation::Procs, ctx.n(50_000, 500_000), brotli_strategy, |c, s| {
         let r = guard::catch(|| iftdrive::drive_brotli(&c.stream, c.dict.as_deref(), c.max_len as usize));
         match r {
             Ok(n) => {
